@@ -26,7 +26,7 @@ import (
 	"github.com/flamego/flamego/verifharness/internal/rt"
 )
 
-const rule = "case = environment in {development, production, test} x Recovery placed as application middleware, group handler or first route handler x 0..2 recording middleware before it (the outermost sometimes sends status 202 and a few bytes before Next()) x Recovery installed once or twice (with a recording middleware between the two), before the first request or only after both routes have been requested once x optionally an application that has mapped a ReturnHandler of its own (it only writes lone strings) x optionally a handler that re-maps http.ResponseWriter to a plain embedding wrapper x 1..3 later handlers (route handlers; or the last one as the final action; or all of them as the not-found chain), each of the shape func(Context), func(Context) error / string (returning nil / the empty string), func(ResponseWriter, *Request) or http.HandlerFunc and a program over {write a status, write body bytes, Next(), cancel the request context, panic(value) - from ordinary code, from 150 frames further down, from a function whose source file cannot be read or from the last line of a source file that does not end with a newline -, require an unresolvable dependency, write with a registered before-function that panics, WriteHeader with a code the underlying writer rejects by panicking, a Hijack that fails} with panic values of kinds {string, error, runtime error, struct, http.ErrAbortHandler, custom error, integer, typed-nil error, slice, map, struct with a slice field}; GET or HEAD, optionally with Accept or Connection/Upgrade request headers; the environment may change between construction and requests x a sequence of 1..4 requests mixing the panicking route and a healthy one. " +
+const rule = "case = environment in {development, production, test} x Recovery placed as application middleware, group handler or first route handler x 0..2 recording middleware before it (the outermost sometimes sends status 202 and a few bytes before Next()) x Recovery installed once or twice (with a recording middleware between the two), before the first request or only after both routes have been requested once x optionally an application that has mapped a ReturnHandler of its own (it only writes lone strings) x optionally a handler that re-maps http.ResponseWriter to a plain embedding wrapper x 1..3 later handlers (route handlers; or the last one as the final action; or all of them as the not-found chain), each of the shape func(Context), func(Context) error / string (returning nil / the empty string), func(ResponseWriter, *Request) or http.HandlerFunc and a program over {write a status, write body bytes, Next(), cancel the request context, panic(value) - from ordinary code, from 150 frames further down, from a function whose source file cannot be read or from the last line of a source file that does not end with a newline -, require an unresolvable dependency, write with a registered before-function that panics, WriteHeader with a code the underlying writer rejects by panicking, a Hijack that fails} with panic values of kinds {string, error, runtime error, struct, http.ErrAbortHandler, custom error, integer, typed-nil error, slice, map, struct with a slice field, the empty string, an error with an empty message}; GET or HEAD, optionally with Accept or Connection/Upgrade request headers; the environment may change between construction and requests x a sequence of 1..4 requests mixing the panicking route and a healthy one. " +
 	"Oracle: nothing escapes ServeHTTP and every request returns (60 s watchdog); an interpreter of the handler programs says what had been sent before the panic: status = that status, or 500 if none; body = the earlier bytes followed by a tail that (development) shows the panic value, (otherwise) shows neither the value nor stack frames; every recording middleware logged its code after Next(); a healthy request answers exactly like on a fresh instance. " +
 	"non-trivial = a case with a panic after a write, or inside a nested Next(), or with a non-string value, or with a failed dependency resolution, or followed by a healthy request; distinct by case text"
 
@@ -128,6 +128,11 @@ func panicValue(kind string) interface{} {
 		return customErr{7}
 	case "int":
 		return 987654321
+	case "emptystr":
+		// non-nil values that print as nothing
+		return ""
+	case "emptyerr":
+		return errors.New("")
 	case "slice":
 		return []int{515151, 2}
 	case "map":
@@ -804,7 +809,7 @@ func js(v interface{}) string {
 	return string(b)
 }
 
-var kinds = []string{"string", "error", "runtime", "struct", "abort", "custom", "int", "typednil", "slice", "map", "ncstruct", "cjk", "accents"}
+var kinds = []string{"string", "error", "runtime", "struct", "abort", "custom", "int", "typednil", "slice", "map", "ncstruct", "cjk", "accents", "emptystr", "emptyerr"}
 
 func genCase(t *rapid.T) Case {
 	c := Case{
